@@ -25,6 +25,7 @@ type Pool struct {
 	n     int
 	reg   bool
 	quiet bool
+	id    int
 }
 
 const poolCap = 32
@@ -58,6 +59,7 @@ var nPools int
 func (p *Pool) register() {
 	if !p.reg {
 		p.reg = true
+		p.id = nPools
 		if nPools < len(allPools) {
 			allPools[nPools] = p
 			nPools++
@@ -103,6 +105,9 @@ func (p *Pool) get() interface{} {
 	p.register()
 	PoolStats.Gets++
 	t := PoolTape
+	if t != nil && t.Trace {
+		t.logEv('g', uint64(p.id), uint64(p.n), 0)
+	}
 	if p.n > 0 {
 		idx := p.n - 1
 		miss := false
@@ -140,6 +145,9 @@ func (p *Pool) put(x interface{}) {
 	p.register()
 	if x == nil {
 		return
+	}
+	if t := PoolTape; t != nil && t.Trace {
+		t.logEv('p', uint64(p.id), uint64(p.n), 0)
 	}
 	if PoolPoison {
 		poison(x)
